@@ -10,6 +10,7 @@ COMMON_TB = [
 CHECKS = {
     "C05": {
         "id": "C05",
+        "spec_ops": ["h.mar"],
         "engine": "header",
         "trusted_base": COMMON_TB + [
             "modelled, not verified: strings as byte lists seen by the name validators as the characters U+00..U+FF (the code checks UTF-8 first and then ASCII-only classes: both reject every byte >= 0x80), Vec as list, the decoded DynamicHeader as the list of known fields (order not observable)",
@@ -20,6 +21,7 @@ CHECKS = {
     },
     "C06": {
         "id": "C06",
+        "spec_ops": ["h.hdr", "h.msg"],
         "engine": "header",
         "trusted_base": COMMON_TB + [
             "modelled, not verified: strings as byte lists seen by the name validators as the characters U+00..U+FF (the code checks UTF-8 first and then ASCII-only classes: both reject every byte >= 0x80), Vec as list, the decoded DynamicHeader as the list of known fields (order not observable)",
@@ -79,6 +81,7 @@ CHECKS = {
     },
     "C17": {
         "id": "C17",
+        "spec_ops": ["c17.addr", "c17.uid"],
         "engine": "auth",
         "trusted_base": COMMON_TB + ["modelled, not verified: Path::exists (an input predicate), UnixAddr::new / new_abstract (no NUL, shorter than 108 bytes), each stream.read result (a script event: chunk / eof / error), write_all (succeeds or fails atomically), env::var"],
         "level_text": "Proved in Lean: the address parser's result is characterised completely against a declarative relation for EVERY string (first path= / abstract= key of a unix: address wins, any other keys in any order are skipped, every other string is an error, never a panic); get_uid_as_hex is the hex encoding of the ASCII decimal digits for every uid; over EVERY finite server script (every chunking, every reply class, eof or error at any point, arbitrary bytes), every uid and both fd settings the client writes a prefix of NUL, AUTH EXTERNAL <hex>, [NEGOTIATE_UNIX_FD], BEGIN, each only after the previous reply line was accepted; success only on OK / AGREE_UNIX_FD; never BEGIN after a rejection; the handshake performs at most script.length + 1 reads and never panics; nothing is read after the last reply line, so a server that sends one line per command leaves all message bytes unread; the outcome is independent of the chunking when each reply's CRLF ends a read. Tied by forked children running connect_to_bus under 20 boundary uids and random uids, ~10^4 grammar-generated and mutated addresses through get_session_bus_path under a controlled environment with an independent oracle, and several hundred scripted handshakes (36 + 15 reply classes, close after every k bytes, all chunkings of short lines, long lines, pipelined replies, resets) with a watchdog; BEGIN-after-reject, CRLF, ordering, success-only-on-OK and 'message right after BEGIN received intact' are checked directly.",
@@ -98,6 +101,7 @@ CHECKS = {
     },
     "C19": {
         "id": "C19",
+        "spec_ops": ["c19.match"],
         "engine": "conn",
         "trusted_base": COMMON_TB + [
             "modelled, not verified: HashMap (association lists; the route map's iteration order is an arbitrary permutation at every lookup), the invoked handler's behaviour (an input), send_message + write_all (one boolean input: written completely or not at all), get_next_message / the socket (replies are checked by decoding them at the peer)",
@@ -119,6 +123,7 @@ CHECKS = {
     },
     "C02": {
         "id": "C02",
+        "spec_ops": ["w.enc"],
         "engine": "wire",
         "trusted_base": COMMON_TB + [
             "modelled, not verified: std::str::from_utf8 (RFC 3629 validity, Utf8.valid; tied by corrupted / random byte strings), Vec / slices as lists, HashMap as the entry list in its iteration order (the order is an input; decoded maps are compared after last-wins deduplication and sorting)",
@@ -130,6 +135,7 @@ CHECKS = {
     },
     "C03": {
         "id": "C03",
+        "spec_ops": ["w.dec"],
         "engine": "wire",
         "trusted_base": COMMON_TB + [
             "modelled, not verified: std::str::from_utf8 (RFC 3629 validity, Utf8.valid; tied by corrupted / random byte strings), Vec / slices as lists, HashMap as the entry list in its iteration order (the order is an input; decoded maps are compared after last-wins deduplication and sorting)",
@@ -151,6 +157,7 @@ CHECKS = {
     },
     "C07": {
         "id": "C07",
+        "spec_ops": ["c07.s"],
         "engine": "lang",
         "trusted_base": COMMON_TB + [
             "modelled, not verified: char iteration / byte indexing of &str (List Char; the validator's (sig,pos) pair is modelled as (previous char, suffix)), Peekable (look-ahead of one character)",
@@ -161,6 +168,7 @@ CHECKS = {
     },
     "C08": {
         "id": "C08",
+        "spec_ops": ["c08.v", "c08.char"],
         "engine": "lang",
         "trusted_base": COMMON_TB + [
             "modelled, not verified: char::is_ascii_alphanumeric / is_ascii_digit (tied exhaustively over all 0x110000 scalar values), str::split / split_once / strip_prefix / len (tied by exhaustive short strings)",
